@@ -11,7 +11,7 @@ from core import q
 warnings.simplefilter('ignore')
 
 REQUIRED = ['contours_first', 'yields_from_block', 'frontier', 'block_is_first_contour', 'erode_mono', 'erode_subset',
-            'dilate_erode_subset', 'hatch_region_inside', 'level_within', 'hatch_line_within', 'coverage']
+            'dilate_erode_subset', 'hatch_region_inside', 'level_within', 'hatch_line_within', 'coverage', 'outline_met', 'coverage_of_outline']
 RULE = ('Blocks: rectangles, discs, slivers 0.5..12 floor spacings wide, wedges, L / U / C / H shapes, dumbbells and three-pad chains '
         'whose necks vanish when inset, two pads joined by a neck with a dip in one pad, exactly square envelopes with a dip in the '
         'top / bottom / side edge, thin rounded wedges whose first inset splits, all rotated by 0 / 90 degrees, and real blocks dug by TrenchColumn from coupler / S-bend layouts; '
@@ -34,7 +34,8 @@ CLAIM = {
             'induction over the turns). Metric: an inset grown by 1.05 spacings stays inside the inset 1.05 spacings shallower, so '
             'hatching after k >= 2 levels is inside the block; by the intermediate value theorem along the segment to the nearest '
             'outside point every point of depth in [k d,(k+1) d] is within d of the depth-k d level set; every abscissa is within '
-            'd/2 of one of the 2+floor(w/d) hatch lines; together: no block point farther than d (+eps) from the path. Tied to the '
+            'd/2 of one of the 2+floor(w/d) hatch lines; every segment from a block point to an outside point meets the block\'s frontier '
+            '(signed-distance IVT); together: no block point farther than d (+eps) from the path. Tied to the '
             'code by replaying the model on the inset tree recorded from the real run and by shapely measurements of the real yields.',
     'note': 'PARTIAL: GEOS insets = erosions is a sampled contract; joins between clipped hatch pieces are measured, not proved. '
             'Trusted: Lean kernel/Mathlib; Model/Floor.lean tied by differential comparison.',
